@@ -169,7 +169,7 @@ Lemma insert_by_In x y l : In x (insert_by y l) -> x = y \/ In x l.
 Proof.
   induction l as [|z l IH]; simpl.
   - intros [H|[]]. auto.
-  - destruct (Nat.ltb (num_ops y) (num_ops z)); simpl.
+  - destruct (Nat.leb (num_ops y) (num_ops z)); simpl.
     + intros [H|[H|H]]; auto.
     + intros [H|H]; auto. destruct (IH H); auto.
 Qed.
